@@ -438,3 +438,17 @@ Proof. apply loop_space_constant. Qed.
 Example example_footprint :
   (frontier (fst (grun example_ops (init 4096, []))) - 4096) / BLOCK = 7.
 Proof. vm_compute. reflexivity. Qed.
+
+(* the same fact from an arbitrary reachable state: once the frontier stands at peak + 1 blocks, no
+   continuation whose blocks in use stay within the peak moves it (an iteration of a loop that
+   has reached its peak before) *)
+Theorem frontier_stable_after_peak base (pk : nat) ops s R hl fl cl :
+  InvA base s R hl fl cl -> pre_trace s R ops ->
+  (forall sr n, In sr (states ops (s, R)) -> in_use base sr n -> (n <= pk)%nat) ->
+  frontier s - base = (Z.of_nat pk + 1) * BLOCK ->
+  frontier (fst (grun ops (s, R))) = frontier s.
+Proof.
+  intros IA HP HB HF.
+  pose proof (footprint_gen base pk ops s R hl fl cl IA HP HB ltac:(lia)).
+  pose proof (frontier_le_final base ops s R hl fl cl IA HP). lia.
+Qed.
